@@ -30,6 +30,7 @@ MODULES = {
     'C07': 'harness.c07',
     'C08': 'harness.c08',
     'C09': 'harness.c09',
+    'C10': 'harness.c10',
     'C12': 'harness.c12',
     'C13': 'harness.c13',
 }
